@@ -482,8 +482,10 @@ namespace hgraph
             // LINK was modified after the target's own last tick (a from-REF
             // retarget bound an already-valid output), the delta IS the
             // current value - the target's delta storage belongs to an older
-            // cycle.
-            if (is_target_position())
+            // cycle. Only the target-link ROOT owns that tracking; positions
+            // below it share the root's stamp, which must not leak into
+            // per-child delta state (see InputDataCursor::modified).
+            if (data_.is_target_root())
             {
                 const auto *link = data_.link_storage();
                 if (link != nullptr && link->tracking.last_modified_time > data.last_modified_time())
@@ -524,7 +526,7 @@ namespace hgraph
         // Sampled target rebinds carry the modification on the input link,
         // not on the already-valid target. In that case the input delta is
         // the target's current value, exported by the target TSData strategy.
-        if (is_target_position())
+        if (data_.is_target_root())
         {
             const auto *link = data_.link_storage();
             if (link != nullptr && link->tracking.last_modified_time > data.last_modified_time())
